@@ -71,13 +71,15 @@ func genTrip(c *Ctx, pfx string, b tripBase) *gtfs.Trip {
 	t.ID.ID = hashStrings[pick(c, pfx+"id", b.id, 4)]
 	t.ID.RouteID = hashStrings[pick(c, pfx+"route", b.route, 4)]
 	t.ID.DirectionID = gtfs.DirectionID(pick(c, pfx+"dir", b.dir, 3))
-	switch pick(c, pfx+"startTime", b.startTime, 4) {
+	switch pick(c, pfx+"startTime", b.startTime, 5) {
 	case 1:
 		t.ID.HasStartTime = true
 	case 2:
 		t.ID.HasStartTime, t.ID.StartTime = true, time.Second
 	case 3:
 		t.ID.HasStartTime, t.ID.StartTime = true, 25*time.Hour
+	case 4: // equal to one second in the low 32 bits of the nanosecond count
+		t.ID.HasStartTime, t.ID.StartTime = true, time.Second+(1<<32)
 	}
 	switch pick(c, pfx+"startDate", b.startDate, 4) {
 	case 1:
@@ -93,12 +95,15 @@ func genTrip(c *Ctx, pfx string, b tripBase) *gtfs.Trip {
 		p := fmt.Sprintf("%su%d.", pfx, i)
 		// defaults vary with the index so that updates at index >= 1 differ from index 0
 		u := gtfs.StopTimeUpdate{}
-		switch pick(c, p+"seq", (b.seq+i)%3, 3) {
+		switch pick(c, p+"seq", (b.seq+i)%3, 4) {
 		case 1:
 			v := uint32(0)
 			u.StopSequence = &v
 		case 2:
 			v := uint32(5 + i)
+			u.StopSequence = &v
+		case 3: // equal to case 2 in the low 16 bits
+			v := uint32(5 + i + 65536)
 			u.StopSequence = &v
 		}
 		u.StopID = strPtrAlt(pick(c, p+"stop", (b.stop+i)%5, 5))
@@ -109,28 +114,40 @@ func genTrip(c *Ctx, pfx string, b tripBase) *gtfs.Trip {
 				return nil
 			}
 			e := &gtfs.StopTimeEvent{}
-			switch pick(c, p+name+".time", (b.evTime+i)%3, 3) {
+			switch pick(c, p+name+".time", (b.evTime+i)%3, 4) {
 			case 1:
 				v := time.Unix(0, 0).UTC()
 				e.Time = &v
 			case 2:
 				v := time.Unix(1700000000+int64(i), 0).UTC()
 				e.Time = &v
+			case 3: // equal to case 2 modulo 2^32
+				v := time.Unix(1700000000+int64(i)+(1<<32), 0).UTC()
+				e.Time = &v
 			}
-			switch pick(c, p+name+".delay", (b.evDelay+i)%3, 3) {
+			switch pick(c, p+name+".delay", (b.evDelay+i)%3, 5) {
 			case 1:
 				v := time.Duration(0)
 				e.Delay = &v
 			case 2:
 				v := time.Duration(5+i) * time.Second
 				e.Delay = &v
+			case 3: // equal to case 2 in the low 32 bits of the nanosecond count
+				v := time.Duration(5+i)*time.Second + (1 << 32)
+				e.Delay = &v
+			case 4: // equal to case 2 in whole seconds
+				v := time.Duration(5+i)*time.Second + 500*time.Millisecond
+				e.Delay = &v
 			}
-			switch pick(c, p+name+".unc", (b.evUnc+i)%3, 3) {
+			switch pick(c, p+name+".unc", (b.evUnc+i)%3, 4) {
 			case 1:
 				v := int32(0)
 				e.Uncertainty = &v
 			case 2:
 				v := int32(7 + i)
+				e.Uncertainty = &v
+			case 3:
+				v := int32(7 + i + 65536)
 				e.Uncertainty = &v
 			}
 			return e
@@ -425,23 +442,38 @@ func c13Vehicle(withTrip bool) Harness {
 		}
 		if pick(c, "v.pos", 1, 2) == 1 {
 			p := &gtfs.Position{Latitude: f32("v.lat", 2), Longitude: f32("v.lon", 1), Bearing: f32("v.bearing", 0), Speed: f32("v.speed", 0)}
-			switch pick(c, "v.odo", 0, 3) {
+			switch pick(c, "v.odo", 0, 6) {
 			case 1:
 				x := float64(0)
 				p.Odometer = &x
 			case 2:
 				x := float64(1234.5)
 				p.Odometer = &x
+			case 3: // 3, 4: distinct float64 values that are the same float32
+				x := float64(20000000)
+				p.Odometer = &x
+			case 4:
+				x := float64(20000001)
+				p.Odometer = &x
+			case 5:
+				x := float64(1234.5000001)
+				p.Odometer = &x
 			}
 			v.Position = p
 		}
 		u32 := func(label string, base int) *uint32 {
-			switch pick(c, label, base, 3) {
+			switch pick(c, label, base, 5) {
 			case 1:
 				x := uint32(0)
 				return &x
 			case 2:
 				x := uint32(9)
+				return &x
+			case 3: // equal to 9 in the low 16 bits / low 8 bits
+				x := uint32(9 + 65536)
+				return &x
+			case 4:
+				x := uint32(9 + 256)
 				return &x
 			}
 			return nil
@@ -512,13 +544,13 @@ func init() {
 	register(&Check{
 		ID:    "C13",
 		Level: "model_checking",
-		Rule: "all trips/vehicles within k deviations (quick k<=2, thorough k<=4 trips / k<=3 vehicles) of the bases {empty, full, mixed} x field alphabets (adjacent strings over {'',a,ab,b}, nil/zero/non-zero optionals, 0-3 updates with index-dependent defaults); " +
+		Rule: "all trips/vehicles within k deviations (quick k<=2, thorough k<=5 trips / k<=4 vehicles) of the bases {empty, full, mixed} x field alphabets (adjacent strings over {'',a,ab,b}, nil/zero/non-zero optionals, numeric twins that agree in their low 8/16/32 bits or as float32, 0-3 updates with index-dependent defaults); " +
 			"non-trivial = distinct data keys with an id or at least one update; oracle = global bijection hash-input-stream <-> data key plus per-value invariance under copy/zone/flag/back-reference",
 		Assumptions: []string{"the hash input is the concatenation of the byte slices written to the hash.Hash", "instants have whole-second resolution (as produced by the parser)"},
 		Scenarios: func(tier string) []*Scenario {
 			k, kv := 2, 2
 			if tier == "thorough" {
-				k, kv = 4, 3
+				k, kv = 5, 4
 			}
 			return []*Scenario{
 				{Name: "trip/empty", Bound: k, Run: c13Trip("empty")},
